@@ -252,7 +252,10 @@ impl FmtAttribute {
                 }
             };
 
-            let unnamed = name.strip_prefix('_').and_then(|s| s.parse().ok());
+            // Only `_0`, `_1`, ... name tuple fields: `_01` or `_+1` are different identifiers.
+            let unnamed = name
+                .strip_prefix('_')
+                .and_then(|s| s.parse::<usize>().ok().filter(|i| i.to_string() == s));
             let ty = match (&fields, unnamed) {
                 (syn::Fields::Unnamed(f), Some(i)) => {
                     f.unnamed.iter().nth(i).map(|f| &f.ty)
